@@ -483,19 +483,30 @@ func runDisputeHistory(t *testing.T, seed int64) (string, map[string]int, string
 	rep := pick(r, mine...)
 	// backers of reporter 0 undelegate in two different blocks (two unbonding entries); sometimes their validator is
 	// then slashed for an infraction before those entries (entry balance < initial balance)
+	slashed := false
 	if r.Intn(2) == 0 {
-		slashIt := r.Intn(2) == 0
+		slashIt := r.Intn(3) != 0
+		smallThenAll := r.Intn(2) == 0
 		infraction := w.height
 		var touched []int
 		for k := 0; k < 2 && w.halted == ""; k++ {
 			block(time.Duration(1+r.Intn(3))*time.Second, func() {
 				for _, a := range []int{0, nVals, nVals + 1, nVals + 2} {
-					if k == 0 && r.Intn(2) == 0 {
+					if k == 0 && r.Intn(2) == 0 && !smallThenAll {
 						continue
 					}
 					a := a
 					if v, amt, ok := w.someDelegation(a); ok {
-						x := pick(r, bquo(amt, bi(3)), bquo(amt, bi(4)), bi(400_000), bi(1))
+						x := pick(r, bquo(amt, bi(2)), bquo(amt, bi(3)), bquo(amt, bi(4)), bi(400_000), bi(1))
+						if smallThenAll {
+							// a small first entry, then nearly everything: a 1 % / 5 % share then consumes the first entry
+							// entirely and takes the rest from the second
+							if k == 0 {
+								x = bquo(amt, bi(int64(pick(r, 150, 200, 400))))
+							} else {
+								x = bsub(amt, bi(int64(pick(r, 1, 1000, 10_000))))
+							}
+						}
 						if x.Sign() <= 0 {
 							continue
 						}
@@ -525,12 +536,18 @@ func runDisputeHistory(t *testing.T, seed int64) (string, map[string]int, string
 						})
 						steps = append(steps, coqStep(res, w.snap(), nil))
 						stats[fmt.Sprintf("%s/%d", res.name, res.result)]++
+						slashed = slashed || res.result == 0
 					}
 				}
 			})
 		}
 	}
 	cat := pick(r, disputetypes.Warning, disputetypes.Minor, disputetypes.Major)
+	if slashed && r.Intn(3) != 0 {
+		// after a slash the whole recorded stake no longer exists (a major dispute cannot be opened); a warning or minor
+		// share is found in the unbonding entries
+		cat = pick(r, disputetypes.Warning, disputetypes.Minor)
+	}
 	pct := map[disputetypes.DisputeCategory]int64{disputetypes.Warning: 100, disputetypes.Minor: 20, disputetypes.Major: 1}[cat]
 	full := bquo(bmul(new(big.Int).SetUint64(rep.Power), bi(loyaPerTRB)), bi(pct))
 	proposer := pick(r, 1, nVals+3, w.team)
@@ -559,6 +576,13 @@ func runDisputeHistory(t *testing.T, seed int64) (string, map[string]int, string
 			_, err := w.disputeMS.ProposeDispute(ctx, &disputetypes.MsgProposeDispute{Creator: w.accts[proposer].String(), Report: &rep, DisputeCategory: cat, Fee: w.coin(fee), PayFromBond: bond})
 			return err
 		})
+		if res.result != 0 {
+			e := res.errMsg
+			if len(e) > 60 {
+				e = e[:60]
+			}
+			stats["ProposeDispute error: "+e]++
+		}
 		if res.result == 0 {
 			ds, _ := w.s.Disputekeeper.GetOpenDisputes(w.ctx)
 			for _, d := range ds {
